@@ -16,9 +16,9 @@ import itertools
 from ..ref import c10c17_curv as R
 
 PROPERTY = 'C10'
-TIMEOUT = 120.0
+TIMEOUT = 40.0
 CHUNK = 48
-FLOOR = 0.35
+FLOOR = 0.5
 RULE = ('acc: every (front end, atom, chain over the 12-symbol alphabet up to the depth bound [plus 10 extra operand-'
         'order / numpy-scalar symbols at depth<=2], final use in {<=a, >=a, ==a, a<=f, a>=f, min, max} with a in '
         '{constant, affine}); non-trivial = curvature != 0 and the reference decision (accept/reject) was observed on '
@@ -66,68 +66,88 @@ def _ext_chains(n):
     return [list(c) for c in itertools.product(full, repeat=n) if ext & set(c)]
 
 
+# representative atoms (one per class family / compile path) for the deepest levels of the quick tier
+DEEP_ACC = {'ro': ['exp', 'minof'], 'dro': ['log', 'Eminof']}
+EXT2 = {'ro': ['exp', 'plogc', 'minof'], 'dro': ['log', 'maxof', 'Emaxof']}
+DEEP_MEAN = {'ro': ['exp', 'maxof'], 'dro': ['quadn', 'Eminof']}
+DEPTH4 = {'ro': ['exp', 'minof'], 'dro': ['pexp', 'Emaxof']}
+
+
+def _mean_cases(fe, atom, chain, uses, pal, npts, with_def):
+    if not R.ATOMS[atom][5]:
+        return
+    zero_pw = R.curvature(atom, chain) == 0 and R.ATOMS[atom][1] in ('Piecewise', 'ExpPiecewise')
+    for use in uses:
+        if R.legality(atom, chain, use) == 'reject':
+            continue
+        base = {'k': 'mean', 'fe': fe, 'atom': atom, 'chain': chain, 'use': use, 'pal': pal, 'n': npts}
+        # ECOS aborts / spins on the degenerate program rsome produces for `min 0*maxof(..)`: default solver only
+        if not (zero_pw and use in ('min', 'max')):
+            yield dict(base, solver='eco')
+        if (with_def or zero_pw) and R.ATOMS[atom][4]:
+            yield dict(base, solver='def')
+
+
 def gen_cases(tier, seed):
     thorough = tier == 'thorough'
     pals = [0, 1, 2, 3] if thorough else [seed % 4]
     pal0 = pals[0]
+    A12, EXT = R.ALPHA12, R.ALPHA_EXT
     # 1. bilinear table
     for fe in FES:
         for l, r in itertools.product(BIL_CLASSES[fe], repeat=2):
             for op in ('mul', 'matmul'):
                 yield {'k': 'bil', 'fe': fe, 'l': l, 'r': r, 'op': op}
-    # 2. acceptance decisions, shallow chains first
-    for depth in (0, 1, 2):
+    # 2. acceptance decisions and meaning, shallow chains first
+    for depth in (0, 1):
         for fe in FES:
             for atom in R.atoms_of(fe):
-                for chain in _chains(R.ALPHA12, depth):
+                for chain in _chains(A12 + EXT, depth):
                     for use in R.USE_NAMES:
                         yield {'k': 'acc', 'fe': fe, 'atom': atom, 'chain': chain, 'use': use, 'pal': pal0}
-    for depth in (1, 2):
         for fe in FES:
-            atoms = R.atoms_of(fe) if (thorough or depth == 1) else R.REP_ATOMS[fe[0] if fe == 'ro' else 'd']
-            for atom in atoms:
-                for chain in _ext_chains(depth):
-                    for use in (R.USE_NAMES if depth == 1 or thorough else R.USES7):
-                        yield {'k': 'acc', 'fe': fe, 'atom': atom, 'chain': chain, 'use': use, 'pal': pal0}
-    # 3. meaning of the legal forms
+            for atom in R.atoms_of(fe):
+                for chain in _chains(A12, depth):
+                    uses = R.USE_NAMES if (depth == 0 or thorough) else R.USES7
+                    for c in _mean_cases(fe, atom, chain, uses, pal0, 6 if depth == 0 or thorough else 4, depth == 0):
+                        yield c
     for fe in FES:
         for atom in R.atoms_of(fe):
-            if not R.ATOMS[atom][5]:
-                continue
-            rep = atom in R.REP_ATOMS['r' if fe == 'ro' else 'd']
-            depths = (0, 1, 2) if (thorough or rep) else (0, 1)
-            for depth in depths:
-                for chain in _chains(R.ALPHA12, depth):
-                    uses = R.USE_NAMES if (depth < 2 or thorough) else R.USES7
-                    for use in uses:
-                        if R.legality(atom, chain, use) == 'reject':
-                            continue
-                        for pal in (pals if depth < 2 else [pal0]):
-                            yield {'k': 'mean', 'fe': fe, 'atom': atom, 'chain': chain, 'use': use, 'pal': pal,
-                                   'solver': 'eco'}
-                            if R.ATOMS[atom][4] and depth < 2:
-                                yield {'k': 'mean', 'fe': fe, 'atom': atom, 'chain': chain, 'use': use, 'pal': pal,
-                                       'solver': 'def'}
-    # 4. depth 3 (thorough: all atoms, all uses; quick: representative atoms, 7 uses)
+            for chain in _chains(A12, 2):
+                for use in R.USE_NAMES:
+                    yield {'k': 'acc', 'fe': fe, 'atom': atom, 'chain': chain, 'use': use, 'pal': pal0}
     for fe in FES:
-        atoms = R.atoms_of(fe) if thorough else R.REP_ATOMS['r' if fe == 'ro' else 'd']
-        for atom in atoms:
-            for chain in _chains(R.ALPHA12, 3):
+        for atom in (R.atoms_of(fe) if thorough else EXT2[fe]):
+            for chain in _ext_chains(2):
+                for use in (R.USE_NAMES if thorough else R.USES7):
+                    yield {'k': 'acc', 'fe': fe, 'atom': atom, 'chain': chain, 'use': use, 'pal': pal0}
+    for fe in FES:
+        for atom in (R.atoms_of(fe) if thorough else DEEP_MEAN[fe]):
+            for chain in _chains(A12, 2):
+                for c in _mean_cases(fe, atom, chain, R.USES7, pal0, 4 if thorough else 2, False):
+                    yield c
+    # 3. depth 3 (thorough: all atoms, all uses; quick: one atom per class family, 7 uses)
+    for fe in FES:
+        for atom in (R.atoms_of(fe) if thorough else DEEP_ACC[fe]):
+            for chain in _chains(A12, 3):
                 for use in (R.USE_NAMES if thorough else R.USES7):
                     yield {'k': 'acc', 'fe': fe, 'atom': atom, 'chain': chain, 'use': use, 'pal': pal0}
     if thorough:
-        # other palettes change only the right-hand side data of the comparison: depth <= 1 again
+        # the other palettes only change the right-hand side data: depth <= 1 again (decisions and meaning)
         for pal in pals[1:]:
             for depth in (0, 1):
                 for fe in FES:
                     for atom in R.atoms_of(fe):
-                        for chain in _chains(R.ALPHA12 + R.ALPHA_EXT, depth):
+                        for chain in _chains(A12 + EXT, depth):
                             for use in R.USE_NAMES:
                                 yield {'k': 'acc', 'fe': fe, 'atom': atom, 'chain': chain, 'use': use, 'pal': pal}
+                        for chain in _chains(A12, depth):
+                            for c in _mean_cases(fe, atom, chain, R.USES7, pal, 4, False):
+                                yield c
         # depth 4 on one atom per class family
-        for fe, atoms in (('ro', ['exp', 'plogc', 'minof']), ('dro', ['log', 'pexp', 'maxof', 'Eminof'])):
-            for atom in atoms:
-                for chain in _chains(R.ALPHA12, 4):
+        for fe in FES:
+            for atom in DEPTH4[fe]:
+                for chain in _chains(A12, 4):
                     for use in R.USES7:
                         yield {'k': 'acc', 'fe': fe, 'atom': atom, 'chain': chain, 'use': use, 'pal': pal0}
 
@@ -140,11 +160,14 @@ def bounds(tier):
     th = tier == 'thorough'
     return {'atoms_ro': len(R.atoms_of('ro')), 'atoms_dro': len(R.atoms_of('dro')),
             'alphabet': R.ALPHA12, 'extra_symbols_depth<=2': R.ALPHA_EXT,
-            'depth_all_atoms': 3 if th else 2, 'depth_representative_atoms': 4 if th else 3,
-            'representative_atoms': R.REP_ATOMS, 'uses': R.USE_NAMES, 'uses_at_max_depth': R.USES7,
-            'meaning_depth': '2 (all atoms)' if th else '1 (all atoms), 2 (representative atoms, 7 uses)',
-            'palettes': 4 if th else 1,
-            'bilinear_classes': BIL_CLASSES}
+            'acc_depth_all_atoms': 3 if th else 2,
+            'acc_depth_selected_atoms': {'depth': 4, 'atoms': DEPTH4} if th else {'depth': 3, 'atoms': DEEP_ACC},
+            'uses': R.USE_NAMES, 'uses_at_max_depth_and_extra_symbols': R.USES7,
+            'meaning_depth_all_atoms': 2 if th else 1,
+            'meaning_depth_selected_atoms': None if th else {'depth': 2, 'atoms': DEEP_MEAN},
+            'grid_points_per_form': '6 (depth 0), 4 (depth 1), 2 (depth 2)' if not th else '6 (depth<=1), 4 (depth 2)',
+            'extra_symbols_depth2_atoms': 'all' if th else EXT2,
+            'palettes': 4 if th else 1, 'bilinear_classes': BIL_CLASSES}
 
 
 # ---- worker side ---------------------------------------------------------------------------------------------
@@ -302,11 +325,15 @@ def _solve(env, solver):
             return 'opt', float(sol.objval)
         if st == 'Primal infeasible':
             return 'inf', None
+        if st == 'Dual infeasible':
+            return 'unb', None
         return 'inconclusive:' + st[:24], None
     if st == '0':
         return 'opt', float(sol.objval)
     if st == '2':
         return 'inf', None
+    if st == '3':
+        return 'unb', None
     return 'inconclusive:' + st[:24], None
 
 
@@ -316,8 +343,9 @@ def _run_mean(case):
                                          case['solver'])
     kind = R.USES[use][0]
     is_obj = kind in ('min', 'max')
-    pts = R.grid_points(atom, chain, use, pal)
-    tag = '%s|%s|%s|%s' % (fe, atom, use, solver)
+    pts = R.grid_points(atom, chain, use, pal, case.get('n', 6))
+    cv = R.curvature(atom, chain)
+    tag = '%s|%s|%s|%s|%s' % (fe, atom, use, solver, 'zero' if cv == 0 else 'curv%+d' % cv)
     ops = 0
     decided = {True: 0, False: 0}
     inconc = 0
@@ -349,14 +377,19 @@ def _run_mean(case):
             # all variables are pinned: the optimum is the value of the written expression
             sign_val = env.m.get() if st == 'opt' else None
             if st != 'opt':
-                return {'status': 'violation', 'ops': ops, 'sig': tag + '|meaning|objective-infeasible',
-                        'detail': 'chain %s at x=%s y=%s: pinned model reported infeasible' % ('>'.join(chain), x, y)}
+                return {'status': 'violation', 'ops': ops,
+                        'sig': tag + '|meaning|objective-' + ('infeasible' if st == 'inf' else 'unbounded'),
+                        'detail': 'chain %s at x=%s y=%s: all variables pinned, written objective = %r, program '
+                                  'reported %s' % ('>'.join(chain), x, y, slack, st)}
             if abs(sign_val - slack) > 1e-4 * (1 + abs(slack)):
                 return {'status': 'violation', 'ops': ops, 'sig': tag + '|meaning|objective-value',
                         'detail': 'chain %s at x=%s y=%s: optimum %r, written expression %r'
                                   % ('>'.join(chain), x, y, sign_val, slack)}
             decided[True] += 1
             decided[False] += 1
+            continue
+        if st == 'unb':
+            inconc += 1
             continue
         feas = st == 'opt'
         if feas != holds:
